@@ -346,6 +346,14 @@ def shape_problems(d):
 # ------------------------------------------------------------------------------------------------
 
 
+def _s(exc):
+    """str(exc), also when the exception's own __str__ raises."""
+    try:
+        return str(exc)
+    except Exception:  # noqa: BLE001
+        return "<exception str() failed>"
+
+
 def _v(cls, msg, trace, extra=""):
     src = trace["source"]
     sname = src.get("file") or f"dumped:{src.get('fmt')}"
@@ -377,8 +385,8 @@ def judge(trace, rec):
         elif et == "LoadError":
             if not sel:
                 out.append(_v("wrong_exception", "LoadError although no format module is selectable", trace, "le"))
-            if name not in str(exc):
-                out.append(_v("message_no_filename", f"LoadError message does not name the file: {str(exc)[:120]}", trace))
+            if name not in _s(exc):
+                out.append(_v("message_no_filename", f"LoadError message does not name the file: {_s(exc)[:120]}", trace))
             ln = getattr(exc, "lineno", None)
             seen = rec["nlines"] + rec["neof"]
             if rec.get("nread", 0) > 0:
@@ -395,7 +403,7 @@ def judge(trace, rec):
                 out.append(_v("lineno_mismatch", f"LoadError reports line {ln} but the reader stood at line {rec['lit'][0]}", trace))
         else:
             cause = type(exc.__cause__).__name__ if exc.__cause__ is not None else None
-            out.append(_v("wrong_exception", f"{et} escaped from {api}: {str(exc)[:160]}", trace, f"{et}/{cause}"))
+            out.append(_v("wrong_exception", f"{et} escaped from {api}: {_s(exc)[:160]}", trace, f"{et}/{cause}"))
     else:
         cons = trace.get("consume", ["exhaust", 0])
         never_started = api == "load_many" and cons[0] in ("close", "drop") and cons[1] == 0
@@ -652,7 +660,7 @@ def _record(stats, trace, rec, data, data0, viols):
                 site = f"{os.path.basename(fn)}:{tb.tb_lineno}"
             tb = tb.tb_next
         stats.add("error_sites", f"{site}:{type(cause).__name__ if cause is not None else 'LoadError'}")
-        if isinstance(cause, StopIteration) or "File ended" in str(exc):
+        if isinstance(cause, StopIteration) or "File ended" in _s(exc):
             stats.inc("probe.eof_inside_parser")
         if isinstance(cause, MemoryError):
             stats.inc("probe.failing_allocation")
@@ -691,7 +699,7 @@ def run_task(task):
             vs = judge(trace, rec)
             viols.extend(vs)
             _record(stats, trace, rec, data, data0, vs)
-            dig.append((at, cut, type(rec["exc"]).__name__, str(rec["exc"])[:60], len(rec["frames"]), rec["steps"]))
+            dig.append((at, cut, type(rec["exc"]).__name__, _s(rec["exc"])[:60], len(rec["frames"]), rec["steps"]))
         for f in task.get("faults", []):
             trace = {"source": src, "faults": [f], "name": name, "fmt": fmt, "api": api, "base_name": name, "base_fmt": fmt,
                      "consume": ["exhaust", 0], "knobs": {}}
@@ -703,7 +711,7 @@ def run_task(task):
             vs = judge(trace, rec)
             viols.extend(vs)
             _record(stats, trace, rec, data, data0, vs)
-            dig.append(("count", f["i"], f["how"], type(rec["exc"]).__name__, str(rec["exc"])[:60], len(rec["frames"]), rec["steps"]))
+            dig.append(("count", f["i"], f["how"], type(rec["exc"]).__name__, _s(rec["exc"])[:60], len(rec["frames"]), rec["steps"]))
         if task.get("faults"):
             stats.add("count_enumerated_sources", f"{name}:{api}")
         stats.add("enumerated_sources", f"{name}:{api}")
@@ -725,13 +733,13 @@ def run_task(task):
             vs.extend(judge_interleaved(trace, rec, data, budget))
             viols.extend(vs)
             _record(stats, trace, rec, data, data0, vs)
-            dig.append((common.short(data), type(rec["exc"]).__name__, str(rec["exc"])[:60], len(rec["frames"]), rec["steps"]))
+            dig.append((common.short(data), type(rec["exc"]).__name__, _s(rec["exc"])[:60], len(rec["frames"]), rec["steps"]))
             if sample is None and task["run"] % 23 == 0 and trace["faults"]:
                 sample = {"mode": "seeded storage faults", "source": trace["source"].get("file") or trace["source"]["fmt"],
                           "faults": trace["faults"], "stored_as": trace["name"], "fmt": trace["fmt"], "api": trace["api"],
                           "consume": trace["consume"], "knobs": trace["knobs"],
                           "outcome": type(rec["exc"]).__name__ if rec["exc"] else f"{len(rec['frames'])} object(s)",
-                          "message": str(rec["exc"])[:200] if rec["exc"] else None, "steps": rec["steps"]}
+                          "message": _s(rec["exc"])[:200] if rec["exc"] else None, "steps": rec["steps"]}
     # odigest: outcomes only (the logical step count of the QCSchema parser depends on PYTHONHASHSEED
     # because it iterates over Python sets; the launcher pins the hash seed)
     return {"n": n, "digest": common.short(repr(dig)), "odigest": common.short(repr([d[:-1] for d in dig])),
